@@ -16,9 +16,9 @@ import (
 	"google.golang.org/grpc"
 	"google.golang.org/grpc/codes"
 	"google.golang.org/grpc/credentials/insecure"
-	"google.golang.org/grpc/status"
 	"google.golang.org/grpc/reflection"
 	rpb "google.golang.org/grpc/reflection/grpc_reflection_v1alpha"
+	"google.golang.org/grpc/status"
 	"google.golang.org/protobuf/proto"
 	"google.golang.org/protobuf/reflect/protoreflect"
 	"google.golang.org/protobuf/reflect/protoregistry"
@@ -82,7 +82,11 @@ func svcFile(path string, names ...string) *descriptorpb.FileDescriptorProto {
 	for _, n := range names {
 		svcs = append(svcs, dyn.Svc(n, dyn.MethodSpec{Name: "Ping", In: ".un.All", Out: ".un.All",
 			Rule: &annotations.HttpRule{Pattern: &annotations.HttpRule_Get{Get: "/fx/" + strings.ToLower(n)},
-				AdditionalBindings: []*annotations.HttpRule{{Pattern: &annotations.HttpRule_Get{Get: "/fx/" + strings.ToLower(n) + "/{f_bytes}"}}}}}))
+				AdditionalBindings: []*annotations.HttpRule{{Pattern: &annotations.HttpRule_Get{Get: "/fx/" + strings.ToLower(n) + "/{f_bytes}"}}}}},
+			// Solo has exactly one annotated binding: when its last owner is dropped the route
+			// disappears (404), so "route found, no handler" (501) is never a consistent state
+			dyn.MethodSpec{Name: "Solo", In: ".un.All", Out: ".un.All",
+				Rule: &annotations.HttpRule{Pattern: &annotations.HttpRule_Get{Get: "/fxsolo/" + strings.ToLower(n)}}}))
 	}
 	f := dyn.File(path, "un", nil, nil, svcs)
 	f.Dependency = append(f.Dependency, "un.proto")
@@ -159,7 +163,9 @@ func chat(full string, in, out protoreflect.MessageDescriptor, ss grpc.ServerStr
 }
 
 // LocalDesc returns the service descriptor of the local SvcA implementation.
-func LocalDesc() *grpc.ServiceDesc { return World.ServiceDesc("un.SvcA", Ping("local", &LocalCnt), nil) }
+func LocalDesc() *grpc.ServiceDesc {
+	return World.ServiceDesc("un.SvcA", Ping("local", &LocalCnt), nil)
+}
 
 // Setup starts the backends once per process.
 func Setup() {
